@@ -87,7 +87,7 @@ def sched_of(block):
     return m.group(1) if m else ""
 
 
-def tie_H(res, client, runs, hang_is_violation=True, label=None, exe=None, ignore_oracle=None, only_oracle=None, judged=True):
+def tie_H(res, client, runs, hang_is_violation=True, label=None, exe=None, ignore_oracle=None, only_oracle=None, judged=True, history_oracle=None):
     """History conformance: run the real container under the deterministic scheduler, judge every
     history with the verified checker.  `runs` = list of dicts {args: [...], cases: n}."""
     exe = exe or vlib.build_client(client)
@@ -131,6 +131,10 @@ def tie_H(res, client, runs, hang_is_violation=True, label=None, exe=None, ignor
                 xs = [x for x in xs if re.search(only_oracle, x)]
             if xs:
                 res.violation("%s:%s:oracle:%s" % (label, var, "-".join(xs[0].rstrip(":").split()[:2]).rstrip(":")), dict(replay, kind="oracle", oracle=xs))
+            if history_oracle:
+                bad = history_oracle(block)
+                if bad:
+                    res.violation("%s:%s:history-oracle:%s" % (label, var, bad.split(":")[0]), dict(replay, kind="oracle", oracle=[bad]))
             if not judged:
                 pass        # oracle-only client (no abstract data type): X lines and hangs decide
             elif verdict == "NOTLIN":
@@ -282,3 +286,41 @@ def tie_A(res, client, model, runs, label=None):
     res.cov["distinct_nontrivial"] = res.cov.get("distinct_nontrivial", 0) + len(nontrivial)
     res.cov["distinct_traces"] = res.cov.get("distinct_traces", 0) + len(hashes)
     return total
+
+
+def minmax_oracle(block):
+    """C15: a key returned by extract_min (extract_max) must not be larger (smaller) than a key that was present
+    throughout the call.  `k2` is certainly present throughout when the successful inserts of k2 completed before the
+    call began outnumber the successful removals of k2 that began before the call ended."""
+    ops = []
+    for line in block.split("\n"):
+        if not line.startswith("O "):
+            continue
+        head, _, ret = line.partition(" : ")
+        w = head.split()
+        r = [int(x) for x in ret.split()] if ret.strip() else []
+        ops.append({"inv": int(w[2]), "res": int(w[3]), "name": w[4], "args": [int(x) for x in w[5:]], "ret": r})
+    def inserted(o):
+        if o["name"] == "insert" and o["ret"][:1] == [1]:
+            return o["args"][0]
+        if o["name"] in ("update", "upsert_keep") and o["ret"] == [1, 1]:
+            return o["args"][0]
+        return None
+    def removed(o):
+        if o["name"] in ("erase", "extract") and o["ret"][:1] == [1]:
+            return o["args"][0]
+        if o["name"] in ("extract_min", "extract_max") and o["ret"][:1] == [1]:
+            return o["ret"][1]
+        return None
+    for c in ops:
+        if c["name"] not in ("extract_min", "extract_max") or c["ret"][:1] != [1]:
+            continue
+        k = c["ret"][1]
+        keys = set(filter(lambda x: x is not None, (inserted(o) for o in ops)))
+        for k2 in keys:
+            if (c["name"] == "extract_min" and k2 < k) or (c["name"] == "extract_max" and k2 > k):
+                ins = sum(1 for o in ops if inserted(o) == k2 and o["res"] < c["inv"])
+                rem = sum(1 for o in ops if o is not c and removed(o) == k2 and o["inv"] < c["res"])
+                if ins - rem >= 1:
+                    return "%s-skipped-a-key-present-throughout: returned %d although %d was present during the whole call" % (c["name"], k, k2)
+    return None
